@@ -63,7 +63,9 @@ def rule_primary_backup(ctx: Ctx) -> None:
     hw = prog.func(PB, "PrimaryNode._handle_write")
     ff = ctx.flow(hw)
     resolves = [c for c in calls_in(hw.node) if path_of(c.func) == "reply_future.resolve"]
-    need(len(resolves) == 3, f"C17-1: expected one reply per replication mode in PrimaryNode._handle_write, found {len(resolves)}")
+    need(1 <= len(resolves) <= 3, f"C17-1: expected the reply site(s) of the three replication modes in PrimaryNode._handle_write, found {len(resolves)}")
+    bad_by_mode: dict[str, list[str]] = {}
+    site_of_mode: dict[str, ast.AST] = {}
     local = [n for n in ff.cfg.nodes if any(isinstance(x, ast.YieldFrom) and path_of(getattr(x.value, "func", None)) == "self._store.put" for e in own_exprs(n) for x in walk_scope(e))]
     modes_seen = set()
     for rc in resolves:
@@ -127,8 +129,14 @@ def rule_primary_backup(ctx: Ctx) -> None:
                 okp = False
             if not okp:
                 bad.append(f"[{p.describe()[:140]}] mode {mode}: reply not preceded by the required wait")
-        modes_seen.add(mode)
-        ctx.ob("C17-1", "G2", hw, rc, not bad, f"PrimaryNode replies in {mode} mode only after its own store write and the acks that mode promises (all / any / none)" + ("" if not bad else " — " + bad[0]))
+            # one verdict per replication mode, whether the three modes reply at three sites or share one after the if/elif/else
+            modes_seen.add(mode)
+            site_of_mode.setdefault(mode, rc)
+            bad_by_mode.setdefault(mode, []).extend(bad)
+            bad = []
+    for mode in sorted(site_of_mode):
+        bad = bad_by_mode.get(mode, [])
+        ctx.ob("C17-1", "G2", hw, f"reply in {mode} mode", not bad, f"PrimaryNode replies in {mode} mode only after its own store write and the acks that mode promises (all / any / none)" + ("" if not bad else " — " + bad[0]), node=site_of_mode[mode])
     need(modes_seen == {"ASYNC", "SEMI_SYNC", "SYNC"}, f"C17-1: reply sites cover modes {modes_seen}")
     # one fresh future per backup, carried in that backup's message, and collected
     loops = [s for s in walk_stmts(hw.node.body) if isinstance(s, ast.For) and path_of(s.iter) == "self._backups" and any(path_of(c.func) == "self._network.send" for c in calls_in(s))]
@@ -345,8 +353,18 @@ def rule_chain(ctx: Ctx) -> None:
             bad.append(p.describe()[:140])
     ctx.ob("C17-3", "G5", rd, rep[0], not bad, "CRAQ: a read is answered locally only if the key is clean when re-checked after the read's last suspension" + ("" if not bad else " — " + bad[0]))
     ft = prog.func(CH, "ChainNode._craq_forward_target")
-    tests = {f.sig for s in walk_stmts(ft.node.body) if isinstance(s, ast.If) for f in atoms(s.test, True)}
-    ctx.ob("C17-3", "G1", ft, "dirty ⇒ forward to tail", ("in", "key", "self._dirty_keys") in tests and ("ne", "ChainNodeRole.TAIL", "self._role") in tests, f"a non-tail CRAQ node forwards reads of dirty keys to the tail")
+    # on every way to returning a node (not None) the function has established: key dirty, this node not the tail — however the guards are
+    # spelled (nested ifs, early returns, De Morgan)
+    ftf = ctx.flow(ft)
+    okft, n_tail = True, 0
+    for p_ in enumerate_paths(ftf, ftf.cfg.entry):
+        if p_.end != "exit":
+            continue
+        r_ = [n_.ast for n_ in p_.nodes if n_.kind == "stmt" and isinstance(n_.ast, ast.Return)]
+        if r_ and r_[-1].value is not None and not (isinstance(r_[-1].value, ast.Constant) and r_[-1].value.value is None):
+            n_tail += 1
+            okft = okft and ("in", "key", "self._dirty_keys") in p_.facts and ("ne", "ChainNodeRole.TAIL", "self._role") in p_.facts
+    ctx.ob("C17-3", "G1", ft, "dirty ⇒ forward to tail", okft and n_tail >= 1, f"a non-tail CRAQ node forwards reads of dirty keys to the tail")
 
 
 def _dominance_tabulated(fn) -> tuple[str, str] | None:
